@@ -125,24 +125,28 @@ class Ctx:
         return q if self.quick() else t
 
     # ------------------------------------------------------------------ repo build
-    def build_repo(self, mode="san"):
-        """Snapshot + compile /repo's working tree.  Returns the build directory."""
-        if mode in self.builds:
-            return self.builds[mode]
-        d = os.path.join(self.scratch, "build_" + mode)
-        rc, out, err = sh([os.path.join(VERIF, "lib", "build_repo.sh"), d, mode], timeout=900)
+    def build_repo(self, mode="san", lib_cflags="", tag=None):
+        """Snapshot + compile /repo's working tree.  Returns the build directory.
+        lib_cflags: extra compiler flags for EVERY libmps source of this build (e.g. '-include /verif/harness/cNN_hooks.h
+        -DVF_CNN_TRACE=1' for a hooked build; the header is then seen after harness/vf_hooks.h); such a build is cached under `tag`."""
+        key = mode if not (lib_cflags or tag) else "%s_%s" % (mode, tag or "x%08x" % (hash(lib_cflags) & 0xffffffff))
+        if key in self.builds:
+            return self.builds[key]
+        d = os.path.join(self.scratch, "build_" + key)
+        env = dict(os.environ); env["VF_EXTRA_CFLAGS"] = lib_cflags
+        rc, out, err = sh([os.path.join(VERIF, "lib", "build_repo.sh"), d, mode], timeout=900, env=env)
         if rc != 0:
-            raise InfraError("building /repo (mode %s) failed:\n%s" % (mode, err[-3000:]))
-        self.builds[mode] = d
-        self.log("built /repo snapshot (%s)" % mode)
+            raise InfraError("building /repo (mode %s) failed:\n%s" % (key, err[-3000:]))
+        self.builds[key] = d
+        self.log("built /repo snapshot (%s)" % key)
         return d
 
     def snap(self, mode="san"):
         return os.path.join(self.build_repo(mode), "snap")
 
-    def compile_harness(self, sources, out_name, mode="san", extra_cflags="", extra_ldflags="", cxx=None):
+    def compile_harness(self, sources, out_name, mode="san", extra_cflags="", extra_ldflags="", cxx=None, lib_cflags="", tag=None):
         """Compile harness source files (paths relative to /verif/harness or absolute) and link with libmps."""
-        b = self.build_repo(mode)
+        b = self.build_repo(mode, lib_cflags, tag)
         cflags = open(os.path.join(b, "cflags")).read().strip()
         ldflags = open(os.path.join(b, "ldflags")).read().strip()
         if isinstance(sources, str): sources = [sources]
